@@ -25,8 +25,14 @@ def run(rep: Report, repo: Repo):
     c04.capture_times(rep, repo)
     capture_rest(rep, repo, mod)
     overflow(rep, repo)
-    counts(rep, repo)
-    accumulation(rep, repo, mod)
+    act = False
+    try:
+        act = activity_evaluated(rep, repo, mod)
+    except ModelError as e:
+        rep.note(f'C13.count: the activity computation is outside the evaluated subset ({e}); the structural rules C13.count / C13.accumulate decide')
+    if not act:
+        counts(rep, repo)
+    accumulation(rep, repo, mod, kernel_side=not act)
 
 
 def capture_rest(rep, repo, mod):
@@ -225,9 +231,78 @@ def counts(rep, repo):
             rep.violate('C13.count', mod, f, defs['nrise'], 'the terminator must be stored before nrise reads cbuf[z_mem, sim] (for an empty waveform position 0 holds the terminator, not a stale TMIN)', node=defs['nrise'])
 
 
-def accumulation(rep, repo, mod):
+def activity_evaluated(rep, repo, mod):
+    """C13.count / C13.accumulate decided together by evaluation (Engine M; integers only): the statements of _wave_eval behind its event loop are evaluated for every
+    waveform length 0..64 with and without a leading TMIN entry, the value they return is handed to the accumulation statements of level_eval_cpu and wave_eval_gpu, and
+    what reaches abuf must be rises x (column 7) + falls x (column 8) of the op, at row column 6, exactly when that row is >= 0. Returns False when the code is outside the subset."""
+    from kvstatic import minieval
+    NS, Rec, stub = minieval.NS, minieval.Rec, minieval.stub
+    K = Kernel(repo)
+    # the sentinels are only compared here, never computed with: any three ordered numbers stand for them (their order is rule C13.overflow)
+    TMIN, TMAX, TMAX_OVL = -1.0e30, 1.0e30, 1.1e30
+    cpu, gpu = mod.func('level_eval_cpu'), mod.func('wave_eval_gpu')
+    rep.rule('C13.count', 'switching activity, evaluated: for waveforms of 0..64 entries with / without a leading TMIN the epilogue of _wave_eval and the accumulation statements of level_eval_cpu / wave_eval_gpu '
+                          'add (number of rises) x column 7 + (number of falls) x column 8 to abuf[column 6, sim], exactly when column 6 >= 0')
+    WR, WF = 1000, 1
+    bad = None
+    n = 0
+    # names the epilogue may read from the loop: assigned neutral values (all inputs at their terminator, no overflow)
+    base = {'TMIN': TMIN, 'TMAX': TMAX, 'TMAX_OVL': TMAX_OVL if TMAX_OVL is not None else TMAX, 'a': TMAX, 'b': TMAX, 'c': TMAX, 'd': TMAX, 'current_t': TMAX, 'overflows': 0,
+            'z_mem': 0, 'sim': 0, 'z_cap': 100, 'z_val': 0, 'previous_t': TMIN}
+    for z in range(0, 65):
+        for tm in (0, 1):
+            if tm and z == 0:
+                continue
+            for a_loc in (3, 0, -1):
+                n += 1
+                rises, falls = (z + 1) // 2 - tm, z // 2
+                cb = Rec()
+                for k in range(z):
+                    cb.put((k, 0), TMIN if (k == 0 and tm) else 5.0 + k)
+                op = [0, 0, 0, 0, 0, 0, a_loc, WR, WF]
+                env = dict(base)
+                env.update({'z_cur': z, 'cbuf': cb, 'op': op})
+                try:
+                    try:
+                        minieval.run(K.epilogue, env)
+                        ret = None
+                    except minieval.Returned as r:
+                        ret = r.value
+                    res = {}
+                    for fn, kern in ((cpu, 'wave_eval_cpu'), (gpu, '_wave_eval_gpu')):
+                        ab = Rec()
+                        added = []
+                        cuda = NS(grid=stub(lambda k_: (0, 0)), atomic=NS(add=stub(lambda arr, idx, v: added.append((minieval.freeze(idx), v)))))
+                        e2 = {kern: stub(lambda *a_: ret), 'cuda': cuda}
+                        args = {'ops': [op], 'op_start': 0, 'op_stop': 1, 'c': Rec(), 'cbuf': Rec(), 'c_locs': Rec(), 'c_caps': Rec(), 'abuf': ab, 'sim_start': 0, 'sim_stop': 1,
+                                'delays': Rec(), 'simctl_int': Rec(), 'seed': 0}
+                        minieval.call_function(fn, [args[a.arg] for a in fn.args.args], e2)
+                        got = dict(ab)
+                        for idx, v in added:
+                            got[idx] = got.get(idx, 0) + v
+                        res[fn.name] = got
+                except ModelError:
+                    raise
+                except (IndexError, KeyError, TypeError, AttributeError, ValueError, RuntimeError, ZeroDivisionError) as e:
+                    bad = bad or (f'raises {type(e).__name__}: {e}', z, tm, a_loc)
+                    continue
+                want = {(a_loc, 0): rises * WR + falls * WF} if a_loc >= 0 else {}
+                for name, got in res.items():
+                    g = {k: v for k, v in got.items() if v != 0}
+                    w = {k: v for k, v in want.items() if v != 0}
+                    if g != w and bad is None:
+                        bad = (f'{name} adds {g} to abuf; a waveform with {rises} rises and {falls} falls, weights ({WR}, {WF}) and accumulator row {a_loc} must add {w}', z, tm, a_loc)
+    ok = bad is None
+    rep.ob('C13.count', f'activity of {n} waveform shapes through _wave_eval and both accumulation sites', ok, evals=n)
+    if not ok:
+        why, z, tm, a_loc = bad
+        rep.violate('C13.count', mod, K.f, 'switching activity', f'a waveform with {z} entries{" starting with TMIN" if tm else ""}: {why}', node=K.f)
+    return True
+
+
+def accumulation(rep, repo, mod, kernel_side=True):
     rep.rule('C13.accumulate', 'abuf[a_loc, sim] += nrise*a_wr + nfall*a_wf under a_loc >= 0 with (a_loc, a_wr, a_wf) = op columns (6, 7, 8); same on the GPU via atomic add')
-    for q in ('level_eval_cpu', 'wave_eval_gpu'):
+    for q in (('level_eval_cpu', 'wave_eval_gpu') if kernel_side else ()):
         f = mod.func(q)
         cols = {}
         for s in walk_no_nested_funcs(f):
